@@ -11,6 +11,7 @@ provides the interface for center manifold computations, while the Numba-compile
 handle the low-level numerical integration and section crossing detection.
 """
 
+import threading
 from typing import Literal, Tuple
 
 import numpy as np
@@ -29,6 +30,12 @@ from hiten.algorithms.poincare.centermanifold.types import (
 from hiten.algorithms.poincare.core.backend import _ReturnMapBackend
 from hiten.algorithms.poincare.utils import _hermite_scalar
 from hiten.algorithms.utils.config import FASTMATH
+
+# The engine calls the backend from several Python threads; numba's parallel kernels
+# release the GIL, and not every numba threading layer tolerates concurrent launches of
+# a parallel region (the workqueue layer aborts the process), so launches are serialised.
+# Each launch is itself parallel over the seeds.
+_PARALLEL_KERNEL_LOCK = threading.Lock()
 
 
 @njit(cache=False, fastmath=FASTMATH, inline="always")
@@ -436,18 +443,19 @@ class _CenterManifoldBackend(_ReturnMapBackend):
         if request.method == "adaptive":
             raise NotImplementedError("Adaptive integrator is not implemented in CM backend; use 'fixed' (RK) or 'symplectic'.")
 
-        flags, q2p_arr, p2p_arr, q3p_arr, p3p_arr, t_arr = _poincare_map(
-            np.ascontiguousarray(request.seeds, dtype=np.float64),
-            request.dt,
-            request.jac_H,
-            request.clmo_table,
-            request.order,
-            request.max_steps,
-            request.method == "symplectic",
-            N_SYMPLECTIC_DOF,
-            request.section_coord,
-            request.c_omega_heuristic,
-        )
+        with _PARALLEL_KERNEL_LOCK:
+            flags, q2p_arr, p2p_arr, q3p_arr, p3p_arr, t_arr = _poincare_map(
+                np.ascontiguousarray(request.seeds, dtype=np.float64),
+                request.dt,
+                request.jac_H,
+                request.clmo_table,
+                request.order,
+                request.max_steps,
+                request.method == "symplectic",
+                N_SYMPLECTIC_DOF,
+                request.section_coord,
+                request.c_omega_heuristic,
+            )
 
         states_list: list[tuple[float, float, float, float]] = []
         times_list: list[float] = []
